@@ -312,7 +312,15 @@ ERROR_LINES = ["{% endif %}", "{% endfor %}", "{% endcase %}", "{% endunless %}"
                "{{ ( }}", "{{ 'x }}", "{{ x. }}", "{{ x[ }}", "{% include 'nosuch' %}", "{% render 'nosuch' %}", "{% render nosuch %}",
                "{{ 1 | plus: , }}", "{% liquid\n echo 1\n endx\n%}", "{% liquid\ncomment\n x\n%}", "{{ 1 | divided_by: 0 }}{{ y }}",
                "{% extends 'nosuch' %}", "{% cycle %}", "{% echo %}", "{{ \"${ 1 | nosuch }\" }}", "{% for i in (1..3) %}{% endif %}",
-               "{% break %}{{ 1 | modulo: 0 }}", "{{", "{%", "{% if x", "{% comment %}"]
+               "{% break %}{{ 1 | modulo: 0 }}", "{{", "{%", "{% if x", "{% comment %}",
+               # an unexpected token where a primitive is expected, with and without a token after it
+               "{% if a == , b %}x{% endif %}", "{{ a if , else c }}", "{% if a == | %}x{% endif %}", "{% if a and ) %}{% endif %}",
+               "{% unless , %}{% endunless %}", "{{ a if b else | }}", "{% if not , %}{% endif %}", "{% case x %}{% when , %}{% endcase %}",
+               # lexer errors raised after the scan pointer moved on from the start of the offending text
+               "{% liquid\n echo a ^ b\n%}", "{% liquid\n@ %}", "{% comment %}a{% raw %}{% endcomment %}", "{% liquid\ncomment\necho 'b' %}",
+               "{% liquid\n assign x = 1}",
+               # a bad escape sequence: in a plain literal, after escaped quotes, in a bracketed path segment
+               "{{ \"ab\\uDC00\" }}", "{{ 'it\\'s \\'so\\' \\uDC00' }}", "{{ some_long_name[\"ab\\uDC00\"] }}", "{{ a['b\\uDC00'].c }}"]
 
 
 def error_line_sources(r: random.Random, tier: str) -> list[str]:
@@ -548,6 +556,19 @@ def extraction_cases(r: random.Random, tier: str) -> list[str]:
 
 
 # ---------------------------------------------------------------- indexes at CPython's int/str digit limit
+
+def range_leak_sources() -> list[str]:
+    """A `..` outside parentheses (the parser's to reject) followed, in a later
+    markup or line statement, by a parenthesis: the lexer's range detection
+    must not outlive the markup it started in."""
+    strays = ["{{ a..b }}", "{% if a..b %}x{% endif %}", "{% assign v = 1..2 %}", "{{ .. }}", "{% liquid echo a..b\n echo (1..2) %}"]
+    later = ["{{ (c) }}", "{{ items | map: (x, i) => x }}", "{% if (a or b) and c %}y{% endif %}", "{{ (1..3) }}", "{% for i in (1..2) %}{% endfor %}",
+             "{% liquid echo 1\n echo (c) %}", "{{ 'a${ (c) }b' }}", "{{ f(x) }}", "{{ ) }}"]
+    out = [a + "\ntext\n" + b for a in strays for b in later]
+    out += ["{% liquid echo a..b\n echo (c) %}", "{% liquid echo a..b\n assign v = (x) %}{{ (1..2) }}", "{{ 'a${ b..c }d' }}{{ (e) }}",
+            "{{ 'a${ b..c }d' | f: (e) }}", "{{ a..b | f: (c) }}", "{{ (a..b }}\n{{ c) }}"]
+    return out
+
 
 def long_index_sources() -> list[str]:
     """Array indexes with exactly and just over sys.get_int_max_str_digits()
